@@ -87,6 +87,7 @@ pub struct HostStats {
     pub cwd_reads_worker: u64,
     pub fs_calls_worker: u64,
     pub ncpu_reads_worker: u64,
+    pub env_names: Vec<String>,
 }
 
 impl Proc {
@@ -278,6 +279,11 @@ impl Proc {
             cwd_reads_worker: p[5],
             fs_calls_worker: p[6],
             ncpu_reads_worker: p[7],
+            env_names: {
+                self.send("N\n")?;
+                let l = self.expect_ok()?;
+                l.split(' ').skip(1).filter(|s| !s.is_empty()).map(|s| s.to_string()).collect()
+            },
         })
     }
 
